@@ -581,6 +581,10 @@ impl<'a> Repr<'a> {
                 opt.clear_redirected_reserved();
                 opt.set_option_type(Type::RedirectedHeader);
                 opt.set_data_len((8 + header.buffer_len() + data.len()).div_ceil(8) as u8);
+                // Ensure the padding up to the next multiple of 8 is zeroed.
+                let padding_start =
+                    field::REDIRECTED_RESERVED.end - 2 + header.buffer_len() + data.len();
+                opt.data_mut()[padding_start..].fill(0);
                 let mut packet = &mut opt.data_mut()[field::REDIRECTED_RESERVED.end - 2..];
                 let mut ip_packet = Ipv6Packet::new_unchecked(&mut packet);
                 header.emit(&mut ip_packet);
